@@ -282,7 +282,7 @@ class GridInterp:
                 r = self.block(s.body if t else s.orelse, env)
                 if r is not None:
                     return r
-            elif isinstance(s, ast.For) and not s.orelse:
+            elif isinstance(s, ast.For):
                 seq = self.seq(s.iter, env)
                 broke = False
                 for item in seq:
@@ -294,6 +294,10 @@ class GridInterp:
                         break
                     except _Continue:
                         continue
+                    if r is not None:
+                        return r
+                if not broke and s.orelse:
+                    r = self.block(s.orelse, env)       # for ... else: runs when the loop was not left by break
                     if r is not None:
                         return r
             elif isinstance(s, ast.Break):
